@@ -107,6 +107,12 @@ pub trait EntropySource {
     /// generate a random f64 value.
     fn gen_f64(&mut self) -> f64;
 
+    /// generate a uniformly distributed f64 in [0, 1), for probability decisions.
+    ///
+    /// unlike `gen_f64()` this never yields NaN, negative or > 1 values, also when
+    /// the bits come from fuzzer input; returns 0.0 when fuzzer bytes are exhausted.
+    fn gen_unit_f64(&mut self) -> f64;
+
     /// generate a random value in the given range [min, max).
     fn gen_range(&mut self, min: usize, max: usize) -> usize;
 
@@ -190,6 +196,17 @@ impl<'a> EntropySource for GenerationSource<'a> {
             GenerationSource::Arbitrary(u) => {
                 // arbitrary crate doesn't have float64(), use arbitrary() instead
                 u.arbitrary().unwrap_or(0.0)
+            }
+        }
+    }
+
+    fn gen_unit_f64(&mut self) -> f64 {
+        match self {
+            GenerationSource::Rand(rng) => rng.random(),
+            GenerationSource::Arbitrary(u) => {
+                // 53 random bits scaled into [0, 1)
+                let bits: u64 = u.arbitrary().unwrap_or(0);
+                (bits >> 11) as f64 / (1u64 << 53) as f64
             }
         }
     }
